@@ -146,6 +146,15 @@ func (r *Run) execAPI(op *Op) {
 			r.ok("reject.unchanged")
 			return
 		}
+		if sure, maybe := r.fsKeyConflict(op.B, op.Key); (sure || maybe) && !r.me().faulted {
+			if err != nil {
+				r.probe("upload refused: key in a path relation with a stored key (fs)")
+				return
+			}
+			if sure {
+				r.fail("frame.others", "a file-system backend accepts a key that is a path prefix of a stored key or lies below one (Backend.PutObject) "+r.bctx(), "error", "nil")
+			}
+		}
 		if err != nil {
 			if r.me().faulted {
 				k := b.Keys[op.Key]
